@@ -167,6 +167,7 @@ def run(ctx: common.Run):
                                    {'lines': [{'circuit': repr(circuit)}], 'impl_out': [repr(np.round(rho, 6).tolist()), tot], 'spec_out': [repr(np.round(want, 6).tolist()), 1.0],
                                     'theorem_or_correspondence': 'trajectory_unravel / C09_select_iff'})
     check_conversions(ctx, cirq, n)
+    check_moment_channels(ctx, cirq, n)
     check_noise_models(ctx, cirq, max(10, n // 3))
     check_thermal(ctx, cirq, max(10, n // 3))
 
@@ -212,6 +213,47 @@ def check_conversions(ctx, cirq, n):
         for prob in problems:
             ctx.report_witness(f'conversion:{prob}', f'{prob}: channel descriptions disagree', {'lines': [{'channel': repr(ch)}], 'impl_out': ['...'], 'spec_out': ['...'],
                                'theorem_or_correspondence': 'kraus_mixture_super_choi / C09_reshuffle_involution'})
+
+
+def check_moment_channels(ctx, cirq, n):
+    """the Kraus / superoperator description of a moment is the tensor product of those of its operations (qubits and qudits,
+    qubits of the moment in sorted order)"""
+    rng = ctx.substream('moments')
+    for _ in range(n):
+        dims = [rng.choice([2, 2, 3]) for _ in range(rng.randint(1, 3))]
+        qids = [cirq.LineQid(i, d) if d != 2 else cirq.LineQubit(i) for i, d in enumerate(dims)]
+        ops, factors = [], []
+        for q in qids:
+            if q.dimension == 2:
+                ch = rng.choice([cirq.bit_flip(0.2), cirq.amplitude_damp(0.3), cirq.X ** 0.3, cirq.H, cirq.depolarize(0.1), cirq.ResetChannel()])
+            else:
+                ch = rng.choice([cirq.XPowGate(dimension=3), cirq.ZPowGate(dimension=3) ** 0.5, cirq.ResetChannel(dimension=3), cirq.XPowGate(dimension=3).with_probability(0.4)])
+            if rng.random() < 0.25:
+                continue
+            ops.append(ch.on(q))
+            factors.append((q, [np.asarray(k) for k in cirq.kraus(ch)]))
+        if not ops:
+            continue
+        rng.shuffle(ops)
+        m = cirq.Moment(ops)
+        ctx.count('check', 'moment-channel')
+        ctx.case(['moment', repr(m)], True)
+        want = np.eye(1)
+        for q, ks in sorted(factors, key=lambda t: t[0]):
+            sup_q = sum(np.kron(a, a.conj()) for a in ks)
+            d1, dq = int(round(math.sqrt(want.shape[0]))), ks[0].shape[0]
+            # superoperator of a tensor product, in the (row, row', col, col') layout of kron(K, conj K)
+            t = np.kron(want, sup_q).reshape(d1, d1, dq, dq, d1, d1, dq, dq).transpose(0, 2, 1, 3, 4, 6, 5, 7).reshape((d1 * dq) ** 2, (d1 * dq) ** 2)
+            want = t
+        try:
+            got = sum(np.kron(a, a.conj()) for a in cirq.kraus(m))
+            ok = got.shape == want.shape and np.allclose(got, want, atol=1e-8) and np.allclose(cirq.kraus_to_superoperator(cirq.kraus(m)), want, atol=1e-8)
+            what = 'differs from the tensor product of the operations\' channels'
+        except (ValueError, TypeError) as e:
+            ok, what = False, f'raises {type(e).__name__}: {str(e)[:80]}'
+        if not ok:
+            ctx.report_witness('conversion:moment-kraus', 'the Kraus description of a moment ' + what, {'lines': [{'moment': repr(m)}], 'impl_out': [what], 'spec_out': ['tensor product'],
+                               'theorem_or_correspondence': 'kraus_mixture_super_choi'})
 
 
 def check_thermal(ctx, cirq, n):
